@@ -8,20 +8,21 @@ Import ListNotations.
    The oracles of Model/HourlyFlow.v are instantiated by constants: the outcome class of the pipeline (rows
    returned / exception class) and the stage inputs do not depend on them as long as the regression returns 24
    values per date (sklearn contract).  repair_by_obs labels a missing combination 0 (any label would do: the
-   comparison never looks at values when that branch is taken). *)
+   comparison never looks at values when that branch is taken); repair_by_calendar is the concrete grid fill of
+   Model/HourlyFlow.v. *)
 Definition fill0 (ct : ctable) : ctable :=
   map (fun p => (fst p, match snd p with Some l => Some l | None => Some 0%Z end)) ct.
 
 Definition unit_oracles : oracles unit unit Z unit Z :=
   {| repair_by_obs := fun ct _ => Ok (fill0 ct);
-     repair_by_calendar := fill0;
+     repair_by_calendar := calendar_fill;
      ts_feat := fun _ _ => 0%Z;
      cat_feat := fun _ _ => tt;
      regress := fun X => repeat 0%Z (24 * length X);
      mean2F := fun _ _ => 0%Z;
      mean2Y := fun _ _ => 0%Z |}.
 
-Definition policy_of_z (n : Z) : dst_policy := if Z.eqb n 0 then CountObserved else CountRows.
+Definition policy_of_z (n : Z) : policy := if Z.eqb n 0 then count_observed else count_rows_only.
 
 (* compact frames: the rows of one local date are 60 minutes apart (checked by the harness), first row at utc0
    minutes; a date has one month and one weekday; the null-pattern of `observed` of a date is a default and the
@@ -46,7 +47,7 @@ Fixpoint mk_frame (days : list hfday) (pats : list obspat) : frame unit unit :=
       {| h_rows := mk_rows u 0 hs m dw op; h_loc := loc |} :: mk_frame rest (tl pats)
   end.
 
-Definition flow_outcome (pol : dst_policy) (t : table) (fr : frame unit unit) : outcome :=
+Definition flow_outcome (pol : policy) (t : table) (fr : frame unit unit) : outcome :=
   match hourly_flow unit_oracles pol t fr with
   | Ok rows => Rows (N.of_nat (length rows))
                     (list_eqb Z.eqb (map fst rows) (index_of_frame fr)
@@ -60,7 +61,7 @@ Definition ctable_eqb (a b : ctable) : bool :=
 (* does the model promise that two runs give the same predictions?  Exactly the hypotheses of the theorems:
    same DST indices (Proofs/HourlyFlowProofs.v dst_stage_ext) and a cluster stage that does not read usage
    (covered: cluster_stage_ni; both blank: cluster_stage_blank_ni).  Weather and calendar are shared by construction. *)
-Definition expect_equal (pol : dst_policy) (t : table) (a b : frame unit unit) : bool :=
+Definition expect_equal (pol : policy) (t : table) (a b : frame unit unit) : bool :=
   res_eqb idx_eqb (dst_stage pol a) (dst_stage pol b) && (covers t a || (blank a && blank b)).
 
 (* one case: (policy, stored table, days, variants); variant = (null-pattern per date, what the implementation did,
@@ -72,7 +73,7 @@ Definition hfcase := (Z * table * list hfday * list (list obspat * outcome * boo
 Definition uses_obs_repair (t : table) (fr : frame unit unit) : bool :=
   let re := reindexed t (combos_of fr) in has_missing re && obs_usable fr && has_known re.
 
-Definition outcome_ok (pol : dst_policy) (t : table) (fr : frame unit unit) (oc : outcome) : bool :=
+Definition outcome_ok (pol : policy) (t : table) (fr : frame unit unit) (oc : outcome) : bool :=
   outcome_eqb (flow_outcome pol t fr) oc
   || (uses_obs_repair t fr && match dst_stage pol fr, oc with Ok _, Raised XValueError => true | _, _ => false end).
 
@@ -102,6 +103,19 @@ Definition show_hf (c : hfcase) :=
              let fr := mk_frame days p in
              (flow_outcome pol t fr, expect_equal pol t fr0 fr, covers t fr, uses_obs_repair t fr, dst_stage pol fr)) variants
   end.
+
+(* the cluster label every (month, weekday) of the frame was given in a run (read from the implementation's processed
+   frame), against cluster_stage — except where the usage-reading repair (an oracle) supplied labels *)
+Definition check_labels (c : table * list hfday * list obspat * ctable) : bool :=
+  let '(t, days, pats, expected) := c in
+  let fr := mk_frame days pats in
+  if uses_obs_repair t fr then true
+  else match cluster_stage unit_oracles t fr with
+       | Ok ct => ctable_eqb ct expected
+       | Err _ => false
+       end.
+Definition show_labels (c : table * list hfday * list obspat * ctable) :=
+  let '(t, days, pats, expected) := c in cluster_stage unit_oracles t (mk_frame days pats).
 
 (* the stored table after one predict (StoreBack), for the stages the model computes itself: a covered frame *)
 Definition table_eqb (a b : table) : bool :=
